@@ -410,7 +410,7 @@ class History:
 def corr(ctx: Ctx):
     M = _mods()
     rng = ctx.rng
-    nh = ctx.n(6000, 50000)
+    nh = ctx.n(12000, 60000)
     hs, lines = [], []
     for i in range(nh):
         kind = KINDS[i % len(KINDS)] if i < 4 * len(KINDS) else rng.choice(KINDS)
